@@ -10,8 +10,9 @@ PROP = "C03"
 MODULES = ["PdsVerif.Props.C03"]
 MODEL_MODULES = ["PdsVerif.Model.Si"]
 REQUIRED = ["PdsVerif.C03." + n for n in [
-    "overlap_save_valid", "overlap_save_lastK", "accumulate_spec", "si_full_count", "si_full_spec",
-    "si_energy", "si_dtype", "si_dtype_nonfloat", "si_stream_eq_full", "si_stream_eq_spec",
+    "overlap_save_valid", "overlap_save_lastK", "accumulate_spec", "si_full_count", "si_full_spec", "si_spec_coef",
+    "si_energy", "si_dtype", "si_dtype_nonfloat", "si_full_spec_gaussian", "si_stream_eq_full", "si_stream_eq_spec",
+    "si_stream_chunk", "si_stream_emitted_le",
 ]]
 RULE = (
     "IntFIR correspondence: (frame_shift S, 1-3 filters with integer or Gaussian-integer taps on chosen half-open "
@@ -389,8 +390,11 @@ def check_case(ctx, case, comp, prm, mout, label="C03"):
     S = case["S"]
     N = len(case["x"])
     is_wf = wf(case, M, tr, D)
+    inpre = in_precondition([(l, l + len(t)) for l, t in case["filters"]], S, case["centered"])
     pub = {k: case[k] for k in ("S", "filters", "centered", "pad", "floor", "energy", "power", "real", "window", "x", "ops")}
-    pub.update(M=M, tr=tr, D=D, wf=is_wf)
+    pub.update(M=M, tr=tr, D=D, wf=is_wf, in_precondition=inpre)
+    if inpre and not is_wf:
+        ctx.gap_cases += 1  # inside the property's precondition but outside the theorems' WF (never observed)
     style = "centered" if case["centered"] else "causal"
     ctx.case(pub, nontrivial=N > 0 or len(ops) > 3,
              kind="intfir:%s:%s:%s" % (style, "wf" if is_wf else "nonwf", "real" if case["real"] else "complex"))
@@ -419,7 +423,11 @@ def check_case(ctx, case, comp, prm, mout, label="C03"):
     # ---- oracle on the implementation (exact integers), only where the theorems' scope says it must hold
     exp = spec_py(case, M, tr, D)
     dtype_ops = any(o.startswith("d") for o in ops)
-    if is_wf and exp is not None and not dtype_ops:
+    # (violations are raised only inside the property's own precondition; the rest of WF - centred computers with a
+    # large shift - is covered by the theorems + the correspondence below and tallied as `wf_beyond_precondition`)
+    if is_wf and not inpre:
+        ctx.count("wf_beyond_precondition")
+    if is_wf and inpre and exp is not None and not dtype_ops:
         full = conv[0]
         tags = dict(computer="si", tracer="intfir", style=style)
         if full[0] != "ok":
@@ -440,7 +448,7 @@ def check_case(ctx, case, comp, prm, mout, label="C03"):
                 ctx.violation(pub, dict(full=full[1]), dict(stream=sr),
                               "concat(compute_chunk*, finalize) == compute_full (integer tracer, exact)",
                               tags=dict(clause="stream_eq_full", **tags))
-    elif is_wf and dtype_ops:
+    elif is_wf and inpre and dtype_ops:
         d = int(ops[0][1:])
         tags = dict(computer="si", tracer="intfir", clause="dtype")
         if d == 1:
@@ -521,7 +529,10 @@ def boundary_scan(ctx, n_cfg):
             ctx.evaluations += 1
             if res[0] != "ok" or rows != exp:
                 bad = (N, res[0] if res[0] != "ok" else ("count" if len(rows) != len(exp) else "value"))
-                if is_wf:
+                if is_wf and not inpre:
+                    ctx.mismatch(dict(case, M=M, tr=tr, D=D, wf=True), exp, rows if res[0] == "ok" else res[0],
+                                 "implementation != documented formula inside WF but outside the property's precondition")
+                elif is_wf:
                     pub = dict(case, M=M, tr=tr, D=D, wf=True)
                     ctx.case(pub, kind="boundary:wf_fail")
                     ctx.violation(pub, exp, rows if res[0] == "ok" else res[0],
@@ -600,25 +611,58 @@ def oracle_expected(comp, bank, style, energy, power, log, pad, window, x):
     return lin, scale
 
 
-def make_bank(r, rate):
+def build_bank(kind, scale, nf, lo, hi, analytic, rate=8000):
     from pydrobert.speech import filters
 
-    kind = r.choice(["gabor", "tri", "fbank", "gammatone"])
-    scale = r.choice(["mel", "bark", "linear", "octave"])
     sc_arg = {"mel": "mel", "bark": "bark", "linear": dict(name="linear", low_hz=0.0),
               "octave": dict(name="octave", low_hz=40.0)}[scale]
+    if kind == "gabor":
+        return filters.GaborFilterBank(sc_arg, num_filts=nf, low_hz=lo, high_hz=hi, sampling_rate=rate)
+    if kind == "tri":
+        return filters.TriangularOverlappingFilterBank(sc_arg, num_filts=nf, low_hz=lo, high_hz=hi, sampling_rate=rate,
+                                                       analytic=analytic)
+    if kind == "fbank":
+        return filters.Fbank(num_filts=nf, low_hz=lo, high_hz=hi, sampling_rate=rate, analytic=analytic)
+    return filters.ComplexGammatoneFilterBank(sc_arg, num_filts=nf, low_hz=lo, high_hz=hi, sampling_rate=rate)
+
+
+def make_bank(r, rate):
+    kind = r.choice(["gabor", "tri", "fbank", "gammatone"])
+    scale = r.choice(["mel", "bark", "linear", "octave"])
     nf = r.choice([2, 3, 5])
     lo, hi = r.choice([(20.0, 3800.0), (100.0, 2000.0), (300.0, 3900.0), (1000.0, 3500.0)])
-    if kind == "gabor":
-        b = filters.GaborFilterBank(sc_arg, num_filts=nf, low_hz=lo, high_hz=hi, sampling_rate=rate)
-    elif kind == "tri":
-        b = filters.TriangularOverlappingFilterBank(sc_arg, num_filts=nf, low_hz=lo, high_hz=hi, sampling_rate=rate,
-                                                    analytic=r.random() < 0.5)
-    elif kind == "fbank":
-        b = filters.Fbank(num_filts=nf, low_hz=lo, high_hz=hi, sampling_rate=rate, analytic=r.random() < 0.5)
-    else:
-        b = filters.ComplexGammatoneFilterBank(sc_arg, num_filts=nf, low_hz=lo, high_hz=hi, sampling_rate=rate)
-    return kind, scale, nf, lo, hi, b
+    analytic = r.random() < 0.5
+    return kind, scale, nf, lo, hi, analytic, build_bank(kind, scale, nf, lo, hi, analytic, rate)
+
+
+WINDOWS = ("bartlett", "blackman", "gamma", "hamming", "hann")
+
+
+def window_of(name):
+    from pydrobert.speech import filters
+
+    return {"hann": filters.HannWindow, "hamming": filters.HammingWindow, "gamma": filters.GammaWindow,
+            "bartlett": filters.BartlettWindow, "blackman": filters.BlackmanWindow}[name]()
+
+
+def library_case_run(case):
+    """Build the computer of a library-bank case and run compute_full + the chunked stream. Returns
+    (comp, bank, x, full, stream) - exceptions propagate."""
+    from pydrobert.speech import compute
+
+    bank = build_bank(case["bank"], case["scale"], case["num_filts"], case["low"], case["high"], case["analytic"])
+    flags = {k: case[k] for k in ("include_energy", "use_log", "use_power", "pad_to_nearest_power_of_two")}
+    comp = compute.SIFrameComputer(bank, frame_shift_ms=case["shift_ms"], frame_style=case["style"],
+                                   window_function=window_of(case["window"]), **flags)
+    x = np.random.RandomState(case["sig_seed"]).randn(case["N"]).astype(DT[case["dtype"]])
+    x.setflags(write=False)
+    full = comp.compute_full(x)
+    parts, off = [], 0
+    for c in case["chunks"]:
+        parts.append(comp.compute_chunk(x[off : off + c]))
+        off += c
+    parts.append(comp.finalize())
+    return comp, bank, x, full, np.concatenate(parts)
 
 
 def library_oracle(ctx, n):
@@ -626,27 +670,25 @@ def library_oracle(ctx, n):
 
     r = ctx.rng
     rate = 8000
-    wins = {"hann": filters.HannWindow, "hamming": filters.HammingWindow,
-            "gamma": filters.GammaWindow, "bartlett": filters.BartlettWindow, "blackman": filters.BlackmanWindow}
     done = 0
     tries = 0
     while done < n and tries < 6 * n and not ctx.out_of_time():
         tries += 1
         try:
-            kind, scale, nf, lo, hi, bank = make_bank(r, rate)
+            kind, scale, nf, lo, hi, analytic, bank = make_bank(r, rate)
         except Exception as e:
             ctx.count("bank_ctor_error:" + type(e).__name__)
             continue
         style = r.choice(["causal", "centered"])
         flags = dict(include_energy=r.random() < 0.5, use_log=r.random() < 0.5, use_power=r.random() < 0.5,
                      pad_to_nearest_power_of_two=r.random() < 0.5)
-        wname = r.choice(sorted(wins))
+        wname = r.choice(WINDOWS)
         shift_ms = r.choice([0.5, 1.0, 2.0, 5.0, 10.0])
         dt = r.choice([64, 64, 32, 16])
-        case = dict(computer="si", bank=kind, scale=scale, num_filts=nf, low=lo, high=hi, style=style, shift_ms=shift_ms,
-                    window=wname, dtype=dt, **flags)
+        case = dict(computer="si", bank=kind, scale=scale, num_filts=nf, low=lo, high=hi, analytic=analytic, style=style,
+                    shift_ms=shift_ms, window=wname, dtype=dt, **flags)
         try:
-            comp = compute.SIFrameComputer(bank, frame_shift_ms=shift_ms, frame_style=style, window_function=wins[wname](),
+            comp = compute.SIFrameComputer(bank, frame_shift_ms=shift_ms, frame_style=style, window_function=window_of(wname),
                                            **flags)
         except Exception as e:
             ctx.count("computer_ctor_error:" + type(e).__name__)
@@ -700,7 +742,7 @@ def library_oracle(ctx, n):
                           tags=dict(clause="stream_shape", **tags))
             continue
         lin, scale = oracle_expected(comp, bank, style, flags["include_energy"], flags["use_power"], flags["use_log"],
-                                     flags["pad_to_nearest_power_of_two"], wins[wname](), x)
+                                     flags["pad_to_nearest_power_of_two"], window_of(wname), x)
         got = full.astype(np.float64)
         gst = st.astype(np.float64)
         eps = {64: 1e-9, 32: 2e-6, 16: 4e-3}[dt]
@@ -734,7 +776,7 @@ def library_oracle(ctx, n):
                               tags=dict(clause="stream_eq_full", **tags))
     # non-floating input is rejected
     try:
-        kind, scale, nf, lo, hi, bank = make_bank(r, rate)
+        kind, scale, nf, lo, hi, analytic, bank = make_bank(r, rate)
         comp = compute.SIFrameComputer(bank, frame_shift_ms=2.0)
         for bad_dt in (np.int32, np.int64, np.complex128, bool):
             ctx.case(dict(computer="si", bank=kind, dtype=str(np.dtype(bad_dt))), kind="lib:nonfloat")
@@ -751,14 +793,14 @@ def library_oracle(ctx, n):
 
 
 def run(ctx, driver):
-    intfir_correspondence(ctx, driver, ctx.scale(1800, 14000))
-    boundary_scan(ctx, ctx.scale(40, 0))
-    library_oracle(ctx, ctx.scale(350, 2500))
+    intfir_correspondence(ctx, driver, ctx.scale(3000, 14000))
+    boundary_scan(ctx, ctx.scale(60, 0))
+    library_oracle(ctx, ctx.scale(500, 2500))
 
 
 def run_oracle_only(ctx):
-    boundary_scan(ctx, ctx.scale(40, 0))
-    library_oracle(ctx, ctx.scale(350, 2500))
+    boundary_scan(ctx, ctx.scale(60, 0))
+    library_oracle(ctx, ctx.scale(500, 2500))
 
 
 def replay(rp):
@@ -775,5 +817,22 @@ def replay(rp):
         out = d.run([driver_line(case, M, tr, D, ops)])[0]
         print("model:", parse_model(out))
         print("formula:", spec_py(case, M, tr, D))
+    elif case.get("computer") == "si" and "sig_seed" in case:
+        try:
+            comp, bank, x, full, st = library_case_run(case)
+        except Exception as e:
+            print("impl: raises %s: %s" % (type(e).__name__, e))
+        else:
+            lin, scale = oracle_expected(comp, bank, case["style"], case["include_energy"], case["use_power"], case["use_log"],
+                                         case["pad_to_nearest_power_of_two"], window_of(case["window"]), x)
+            exp = np.log(lin) if case["use_log"] else lin
+            print("impl: compute_full shape %s dtype %s; stream shape %s" % (full.shape, full.dtype, st.shape))
+            print("np.convolve formula: shape %s" % (exp.shape,))
+            if full.shape == exp.shape and full.size:
+                d = np.abs(full.astype(np.float64) - exp)
+                k, i = np.unravel_index(np.argmax(d), d.shape)
+                print("largest deviation at frame %d coeff %d: impl %r formula %r" % (k, i, float(full[k, i]), float(exp[k, i])))
+            if st.shape == full.shape and full.size:
+                print("max |stream - full| = %r" % float(np.max(np.abs(st.astype(np.float64) - full.astype(np.float64)))))
     print("oracle:", rp.get("oracle"), "expected", rp.get("expected"), "got", rp.get("got"))
     return 0
